@@ -5,7 +5,7 @@ CONSTANTS
   MaxSend <- TraceMaxSend
   NFaultSteps <- TraceSteps
   RtDecodable = TRUE
-  Slow = {}
+  Slow <- TraceSlow
   WaitGivesUp = FALSE
   MayExit = TRUE
 CONSTRAINT Progress
